@@ -7,6 +7,7 @@ package c05
 import (
 	"encoding/json"
 	"fmt"
+	"math"
 	"reflect"
 	"strings"
 	"testing"
@@ -259,6 +260,27 @@ func cloneVal(v any) any {
 	return v
 }
 
+// hasNonFinite reports whether v holds an infinite float at any depth.
+func hasNonFinite(v any) bool {
+	switch t := v.(type) {
+	case float64:
+		return math.IsInf(t, 0) || math.IsNaN(t)
+	case []any:
+		for _, x := range t {
+			if hasNonFinite(x) {
+				return true
+			}
+		}
+	case *ordered.MapSA:
+		found := false
+		if t != nil {
+			t.Range(func(_ string, x any) error { found = found || hasNonFinite(x); return nil })
+		}
+		return found
+	}
+	return false
+}
+
 func modelNode(ps []pair) *gt.Node {
 	n := gt.MapN(true)
 	for _, p := range ps {
@@ -333,15 +355,27 @@ func observe(real *ordered.MapSA, m *model, probe []string, deep bool) error {
 		want := modelNode(m.ps)
 		// MarshalJSON
 		jb, err := real.MarshalJSON()
-		if err != nil {
-			failf("MarshalJSON error %v", err)
+		nonFinite := false
+		for _, p := range m.ps {
+			nonFinite = nonFinite || hasNonFinite(p.V)
 		}
-		jn, err := gt.FromJSON(jb)
-		if err != nil {
-			failf("MarshalJSON output does not parse: %v: %s", err, jb)
-		}
-		if d := gt.Diff(want, jn, gt.Opt{}); d != "" {
-			failf("MarshalJSON differs from model: %s\njson: %s", d, jb)
+		if nonFinite {
+			// the model has no JSON form (JSON cannot express an infinity): the encoder must say so rather
+			// than write something else in its place
+			if err == nil {
+				failf("MarshalJSON returned %s for a map holding a number JSON cannot express (the model's pairs have no JSON form)", jb)
+			}
+		} else {
+			if err != nil {
+				failf("MarshalJSON error %v", err)
+			}
+			jn, err := gt.FromJSON(jb)
+			if err != nil {
+				failf("MarshalJSON output does not parse: %v: %s", err, jb)
+			}
+			if d := gt.Diff(want, jn, gt.Opt{}); d != "" {
+				failf("MarshalJSON differs from model: %s\njson: %s", d, jb)
+			}
 		}
 		// MarshalYAML
 		yv, err := real.MarshalYAML()
@@ -465,6 +499,10 @@ func genValue(t *rapid.T, depth int) any {
 	case 3:
 		return nil
 	case 4:
+		if rapid.IntRange(0, 7).Draw(t, "infinite") == 0 {
+			// what `.inf` / `-.inf` in a YAML document decodes to
+			return rapid.SampledFrom([]float64{math.Inf(1), math.Inf(-1)}).Draw(t, "inf")
+		}
 		return rapid.SampledFrom([]float64{0.5, -1.25, 3}).Draw(t, "float")
 	case 5:
 		return rapid.IntRange(0, 2).Draw(t, "int2")
